@@ -1,6 +1,7 @@
 package rules
 
 import (
+	"go/constant"
 	"go/token"
 	"go/types"
 	"strings"
@@ -1004,6 +1005,54 @@ func init() {
 	extra["C19"] = append(extra["C19"], func(c *core.Ctx, r *core.Report) {
 		rule(r, "C19.R7", "the final summary is rendered from the final result: in the run's Do, nothing that writes the result (an error added, the totals taken, the test duration recorded) can execute after the summary was rendered", func() {
 			summaryAfterWrites(c, r)
+		})
+	})
+	extra["C19"] = append(extra["C19"], func(c *core.Ctx, r *core.Report) {
+		rule(r, "C19.R8", "the structured-log banner of the final result is a function of the verdict alone: along every path of ResultData.Log the message logged is decided by the Failed field (one message when it is true, another when it is false), whatever the error value is", func() {
+			var logFn *ssa.Function
+			for _, fn := range c.AllFuncs {
+				if core.RelPkg(fn) == "internal/run/views" && fn.Name() == "Log" && fn.Signature.Recv() != nil && an.IsNamed(fn.Signature.Recv().Type(), core.ModPath+"/internal/run/views", "ResultData") {
+					logFn = fn
+				}
+			}
+			if logFn == nil {
+				panic(core.AnchorError{What: "views.ResultData.Log"})
+			}
+			paths, err := an.DecisionPathsInl(logFn, 256, 2, nil)
+			if err != nil {
+				r.Undecided("ResultData.Log#paths", c.Pos(logFn.Pos()), "%v", err)
+				return
+			}
+			byVerdict := map[string]map[string]bool{"true": {}, "false": {}, "?": {}}
+			for _, p := range paths {
+				verdict := "?"
+				for _, l := range p.Lits {
+					if fld, owner := an.TerminalField(l.T(l.Cond)); fld != nil && fld.Name() == "Failed" && an.IsNamed(owner, core.ModPath+"/internal/run/views", "ResultData") {
+						if _, isBin := an.Strip(l.Cond).(*ssa.BinOp); !isBin {
+							verdict = sprintf("%v", l.Val)
+						}
+					}
+				}
+				// the message constants of slog calls on this path
+				for _, b := range p.Blocks {
+					for _, in := range b.Instrs {
+						call, ok := in.(ssa.CallInstruction)
+						if !ok {
+							continue
+						}
+						t := an.Callee(call)
+						if t == nil || t.Pkg == nil || t.Pkg.Pkg.Path() != "log/slog" || len(call.Common().Args) < 2 {
+							continue
+						}
+						if k, isK := call.Common().Args[1].(*ssa.Const); isK && k.Value != nil && k.Value.Kind() == constant.String {
+							byVerdict[verdict][t.Name()+":"+constant.StringVal(k.Value)] = true
+						}
+					}
+				}
+			}
+			tr, fa, un := keys(byVerdict["true"]), keys(byVerdict["false"]), keys(byVerdict["?"])
+			ok := len(tr) == 1 && len(fa) == 1 && tr[0] != fa[0] && len(un) == 0
+			r.Check(ok, "ResultData.Log#banner", c.Pos(logFn.Pos()), sprintf("Failed → %v, not Failed → %v", tr, fa), sprintf("the structured-log banner is not decided by the verdict alone (Failed=true logs %v, Failed=false logs %v, paths that do not test Failed log %v): the log line can say failed where the text summary says passed", tr, fa, un))
 		})
 	})
 	extra["C15"] = append(extra["C15"], func(c *core.Ctx, r *core.Report) {
